@@ -356,7 +356,7 @@ Section Select.
           | ASoftmax | ALinear => (d4, g4, false, lg4)
           | _ =>
             let '(r, g') := getq g4 (n ++ "_activation") n c false in
-            (snoc d4 ("activation", res_str r), g', is_err r, (n, c, r) :: lg4)
+            (snoc d4 ("activation_quantizer", res_str r), g', is_err r, (n, c, r) :: lg4)
           end in
         St2 g5 ((n, EDict d5) :: t_out s) (t_err s || e3 || e4 || e5) lg5
       | _ => s                                   (* kernel quantizer None: layer not in this block *)
